@@ -21,6 +21,7 @@ func checkC16(c *core.Ctx, r *core.Report) {
 		"(3) the timestamp argument of every metrics.EncodeDatapoint call depends on the payload and on no current-time source; " +
 		"(4) per-item attributes in the OTLP ingest loops are not carried over from the previous resource/scope (no string variable declared outside the per-resource loop and conditionally assigned inside it); " +
 		"(5) every protocol handler that builds an event goes through GetNewPLE with the configured timestamp key; " +
+		"(7) OWN — no byte slice that may still share a fasthttp request body buffer (followed through re-slicing, jsonparser callbacks, parameters, returns, fields and containers, and cut at every copying operation) is stored into the metrics tags tree, which outlives the request; " +
 		"(6) the JSON-number branch of ExtractTimeStamp gives up (returns 0, which every caller replaces by the arrival time) only after a float-capable parser has been tried on the raw value: fractional and exponent spellings of an epoch are valid JSON numbers."
 	r.NotCovered = "field/attribute completeness, unit detection (seconds/millis/nanos) of a timestamp, string timestamp formats, identifier encodings, the Splunk HEC `time` field (ignored by the handler: needs protocol knowledge, not code shape)"
 
@@ -299,6 +300,73 @@ func checkC16(c *core.Ctx, r *core.Report) {
 			}
 		}
 	}
+
+	// ---------------------------------------------------------------- (7)
+	checkRequestBufferOwnership(c, r)
+}
+
+// checkRequestBufferOwnership (clause 7): fasthttp reuses the request body buffer for the next request, so a
+// byte slice that still shares that buffer must not be kept in a structure that outlives the request.
+func checkRequestBufferOwnership(c *core.Ctx, r *core.Report) {
+	al := &core.Alias{C: c}
+	nSrc := 0
+	for _, fn := range c.RepoFunctions() {
+		for _, ci := range core.CallsIn(fn) {
+			f := core.CalleeFunc(ci)
+			if f == nil || f.Pkg() == nil || f.Pkg().Path() != "github.com/valyala/fasthttp" {
+				continue
+			}
+			if f.Name() == "PostBody" || f.Name() == "Body" {
+				if v := ci.Value(); v != nil {
+					nSrc++
+					al.Add(v, nil)
+				}
+			}
+		}
+	}
+	al.Run()
+	r.Floor("OWN", "request body buffers (fasthttp PostBody / Body) followed", nSrc, 10)
+	// long-lived byte-slice fields of the metrics tags tree
+	sinks := []*types.Var{c.Field(pkgMetrics, "tagInfo.tagValue")}
+	n := 0
+	for _, fn := range c.RepoFunctions() {
+		for _, b := range fn.Blocks {
+			for _, in := range b.Instrs {
+				st, ok := in.(*ssa.Store)
+				if !ok {
+					continue
+				}
+				fa, ok := st.Addr.(*ssa.FieldAddr)
+				if !ok {
+					continue
+				}
+				f := core.FieldOfAddr(fa)
+				isSink := false
+				for _, sf := range sinks {
+					if f == sf {
+						isSink = true
+					}
+				}
+				if !isSink {
+					continue
+				}
+				n++
+				construct := fmt.Sprintf("%s:store(%s)#%d-does-not-share-the-request-buffer", shortFn(fn), f.Name(), n)
+				if al.Has(st.Val) {
+					var path []string
+					for _, pv := range al.Path(st.Val) {
+						if pv.Pos().IsValid() {
+							path = append(path, c.Pos(pv.Pos()))
+						}
+					}
+					r.Violation("OWN", construct, c.Pos(st.Pos()), "a byte slice that may still share the HTTP request body buffer is kept in the tags tree: fasthttp reuses that buffer for the next request, which overwrites the stored tag value in place (the series keeps the later request's bytes for good)", path...)
+				} else {
+					r.OK("OWN", construct, c.Pos(st.Pos()), "the stored slice is freshly allocated or copied on every flow from a request body")
+				}
+			}
+		}
+	}
+	r.Floor("OWN", "stores into the tags tree's value field", n, 1)
 }
 
 func constInt64(k *types.Const) (int64, bool) {
